@@ -178,6 +178,13 @@ def models_for(ctx):
         alts.append((z3.And(*[k != key for k in keys]) if keys else True, lambda q, args: ms.none()))
         return ms.Fork(alts)
 
+    def m_mem_replace(ex, path, a):
+        old = ex.load(path, a[0])
+        if not isinstance(a[0], ms.Ref):
+            raise Unsupported("mem::replace target %r" % (a[0],))
+        ex.write(path, a[0].local, a[0].proj, a[1])
+        return old
+
     def m_timeout(ex, path, a):
         return ms.Opaque("()")
 
@@ -241,6 +248,7 @@ def models_for(ctx):
         (r"VarlinkCallError>::reply_invalid_parameter$", reply("invalid_parameter")),
         (r"as org_varlink_certification::Call_\w+>::reply$", reply("success")),
         (r"HashMap::<.*>::get_mut::<str>$", m_get_mut),
+        (r"^std::mem::(replace|swap)::<.*>$", m_mem_replace),
         (r"<Arc<.*> as Deref>::deref$", m_identity),
         (r"RwLock::<ClientIds>::write$", m_identity),
         (r"as DerefMut>::deref_mut$", m_identity),
@@ -425,6 +433,13 @@ def run_client_state(mir, ctx, solver):
         if isinstance(ret, bool):
             seen["success" if ret else "error"] = True
             ask(path.pc, expect != z3.BoolVal(ret), "P:c19.step_admitted_iff_client_known_and_in_order")
+        elif z3.is_bool(ret):
+            for want, key in ((ret, "success"), (z3.Not(ret), "error")):
+                solver.push(); solver.add(*base); solver.add(*path.pc); solver.add(want)
+                seen[key] = seen[key] or solver.check() == z3.sat
+                solver.pop()
+            queries += 2
+            ask(path.pc, expect != ret, "P:c19.step_admitted_iff_client_known_and_in_order")
         else:
             raise Unsupported("check_client_id returns %r" % (ret,))
         conds = []
@@ -500,6 +515,8 @@ def tri(v):
 def encode_witness(name, w, label=""):
     """witness -> byte list for the native replayer: [kind, cid_ok, more, oneway, upgrade, method_ok, parameters, parse_ok, args_equal]"""
     if name == "c19_client_state":
+        if "advances" in label:
+            return [4]
         return [1, 1 if w.get("known") else 0, 1 if w.get("in_order") else 0]
     if name == "c19_wrapper":
         return [2]
